@@ -53,6 +53,10 @@ CHECKS = {
    tech="TLA+ specs Conc.tla (micro-step lock model, exhaustive) and TraceLRUConc.tla (linearisability of recorded concurrent histories against LRU.tla via silent Lin steps, depth-first TLC); concurrent searches recorded under the Go race detector and validated by TLC (TraceConcSearch.tla)",
    text="TLC explores all interleavings of the micro-steps of cache lookups, statistics reads, metric increments and get-or-create under the reader/writer lock (lock downgrade, non-atomic increment and missing re-check are design switches that regenerate lost-update counterexamples); hundreds of short concurrent histories recorded from the real LRUCache are checked for linearisability against the atomic LRU specification; goroutines searching one database directly, through the cache and through the monitor while others invalidate, sweep and read statistics run under the race detector, and TLC checks that every answer equals the answer obtained alone and that the monitor's totals equal the number of monitored searches.",
    note="Data races are decided by the race detector (outside the specification); schedules are sampled."),
+ "C13": dict(cat="model_checking", ref="DESIGN.md section 5, C13",
+   tech="TLA+ specs SearchFlow.tla (scenario enumeration) + TraceSearch.tla P13 for paired real searches with/without boosts; Context.tla + MCContext (every subset of a marker palette x file content classes) for directory analysis, each directory materialised and analysed by the real code, validated by TLC",
+   text="For TLC-enumerated scenarios with context boosts the real search is run with and without them at a limit above the database size and TLC checks on the recorded pair: identical candidate sets, no lower score for a command containing a boosted word, identical score for one containing none (NLP on and off, several boost maps, shipped database). TLC enumerates every subset of a palette of marker/decoy files with valid/malformed/odd/huge package.json and Makefile contents; each directory is created twice (different creation order), analysed by the real analyzer, and TLC checks distinct types, generic exactly alone, determinism and finite boosts >= 1.",
+   note="Reference tokeniser and float comparisons are harness-side; marker table only constrained for documented markers and made-up names."),
 }
 NOT_APPLICABLE = {}
 
